@@ -367,6 +367,23 @@ func (r *c13Run) checkPage(opid string, got []string, err error, m *c13Model, pr
 		r.obs["page_in_txn"]++
 		if r.txModel != nil && m == r.txModel && r.txModel.differsUnder(r.model, prefix) {
 			r.obs["page_in_txn_with_pending_writes"]++
+			committed := map[string]bool{}
+			for _, e := range r.model.children(prefix) {
+				committed[e] = true
+			}
+			added := 0
+			for _, e := range all {
+				if !committed[e] {
+					added++
+				}
+				delete(committed, e)
+			}
+			if added >= 2 {
+				r.obs["page_in_txn_2plus_pending_new_entries"]++
+			}
+			if len(committed) > 0 {
+				r.obs["page_in_txn_pending_removed_entry"]++
+			}
 		}
 	}
 	return nil
@@ -1087,6 +1104,8 @@ func c13WithTxnMins() map[string]int64 {
 	m["txn_commit_with_writes"] = 30
 	m["txn_rollback_with_writes"] = 10
 	m["page_in_txn_with_pending_writes"] = 30
+	m["page_in_txn_2plus_pending_new_entries"] = 10
+	m["page_in_txn_pending_removed_entry"] = 10
 	m["rotxn_write_rejected"] = 3
 	m["helper_own_txn"] = 10
 	return m
